@@ -13,3 +13,52 @@ PROPS = {
     thorough_mult=20,
  ),
 }
+
+PROPS["C08"] = dict(
+    families=[], corpus_entries=[], small_scope=[],
+    spec={"states": "spec.states"},
+    thorough_mult=1,
+)
+
+def _state_cells(tier, rng):
+    from vlib import Case
+    out = []
+    for st in range(25):
+        for d in (0, 1):
+            for k in range(17):
+                for sid in (0, 1):
+                    for var in (0, 1, 2):
+                        out.append("states %d 0,%d,%d,%d,%d" % (st, k, sid, var, d))
+            out.append("states %d 1,%d" % (st, d))
+            codes = range(256) if tier == "thorough" else (0, 10, 40, 255)
+            for sev in range(256):
+                for code in codes:
+                    out.append("states %d 2,%d,%d,%d" % (st, sev, code, d))
+            for var in range(3):
+                out.append("states %d 3,%d,%d" % (st, var, d))
+                out.append("states %d 4,%d,%d" % (st, var, d))
+    # random message sequences from state None (and from random states)
+    def rmsg():
+        r = rng.random()
+        d = rng.randrange(2)
+        if r < 0.7: return "0,%d,%d,%d,%d" % (rng.randrange(17), rng.randrange(2), rng.randrange(3), d)
+        if r < 0.85: return "1,%d" % d
+        if r < 0.95: return "2,%d,%d,%d" % (rng.choice([0, 1, 1, 1, 2, 255, rng.randrange(256)]), rng.randrange(256), d)
+        return "%d,%d,%d" % (rng.choice([3, 4]), rng.randrange(3), d)
+    # guided walks along the documented flows (so that deep states are reached) with random deviations
+    FLOW = ["0,1,0,0,1", "0,2,0,0,0", "0,7,0,1,0", "0,14,0,0,0", "0,8,0,0,0", "0,9,0,0,0", "0,10,0,0,0", "0,7,0,1,1",
+            "0,12,0,0,1", "0,11,0,0,1", "1,1", "0,4,0,0,0", "1,0"]
+    n = 4000 if tier == "quick" else 60000
+    for _ in range(n):
+        st = 0 if rng.random() < 0.7 else rng.randrange(25)
+        L = rng.randrange(1, 14)
+        if rng.random() < 0.5:
+            seq = [m if rng.random() < 0.8 else rmsg() for m in FLOW if rng.random() < 0.8][:L]
+        else:
+            seq = [rmsg() for _ in range(L)]
+        out.append("states %d %s" % (st, " ".join(seq)))
+    return [Case(l, "", "cells" if l.count(" ") == 2 else "sequence") for l in out]
+
+def extra_cases(pid, tier, seed, rng):
+    if pid == "C08": return _state_cells(tier, rng)
+    return []
